@@ -1270,11 +1270,14 @@ class IndexHierarchy(IndexBase):
         if pos is not None:
             if pos == 0:
                 return self._levels.index.values
-            return np.unique(
+            array = np.unique(
                     concat_resolved(
                     list(self._levels.index_array_at_depth(pos))
                     ))
-        return np.unique(array2d_to_array1d(self.values_at_depth(sel)))
+        else:
+            array = np.unique(array2d_to_array1d(self.values_at_depth(sel)))
+        array.flags.writeable = False
+        return array
 
     @doc_inject()
     def equals(self,
@@ -1362,9 +1365,11 @@ class IndexHierarchy(IndexBase):
                 matches.append(as_tuple)
 
         if not matches:
-            return np.full(self.__len__(), False, dtype=bool)
-
-        return isin(self.flat().values, matches)
+            array = np.full(self.__len__(), False, dtype=bool)
+        else:
+            array = isin(self.flat().values, matches)
+        array.flags.writeable = False
+        return array
 
     def roll(self, shift: int) -> 'IndexHierarchy':
         '''Return an :obj:`IndexHierarchy` with values rotated forward and wrapped around (with a positive shift) or backward and wrapped around (with a negative shift).
